@@ -125,6 +125,11 @@ class GrammarEval:
             raise AnalysisError(f"unmodelled pyparsing attribute pp.{pa}")
         if isinstance(e, ast.BinOp):
             l, r = self.ev(e.left), self.ev(e.right)
+            if not isinstance(l, G) and not isinstance(r, G) and not isinstance(e.op, ast.Add):
+                try:
+                    return self.folder.fold(e)  # plain constant arithmetic (a numeric class attribute)
+                except Unknown as exc:
+                    raise AnalysisError(f"constant expression does not fold: {exc}")
             if isinstance(e.op, ast.Add):
                 if not isinstance(l, G) and not isinstance(r, G):
                     try:
